@@ -32,6 +32,8 @@ def pre(a, b, c, d, s, t, o):
         return 0 <= a <= 3 and 0 <= b <= 3 and -1 <= c <= w and -1 <= d <= w
     if k == "bvtype":
         return 1 <= a <= 5 and 1 <= b <= 5
+    if k == "container":
+        return 0 <= a <= 17 and 0 <= b <= 6 and 0 <= c <= 3
     return True
 
 
@@ -92,7 +94,91 @@ def body(a, b, c, d, s, t, o, twin):
         return ok and fresh == t1 and hash(fresh) == hash(t1)
     if k == "pair":
         return pair_body(env, a, b, c, d, o, twin)
+    if k == "container":
+        return container_body(env, a, b, c, twin)
     return True
+
+
+CONTAINER_KINDS = ["list", "tuple", "generator", "iterator", "filter", "dict-keys", "varargs"]
+
+
+def container_cases(env):
+    """(name, constructor taking ONE iterable of the given items, item pool) - every constructor documented as accepting an
+    iterable (or *args) of nodes"""
+    from pysmt import typing as T
+    m = env.formula_manager
+    tm = env.type_manager
+    B = [m.Symbol("b%d" % i, T.BOOL) for i in range(3)]
+    I = [m.Symbol("i%d" % i, T.INT) for i in range(3)]
+    V = [m.Symbol("v%d" % i, tm.BVType(2)) for i in range(3)]
+    S = [m.Symbol("s%d" % i, T.STRING) for i in range(3)]
+    f = m.Symbol("f", tm.FunctionType(T.INT, [T.INT, T.INT, T.INT]))
+    f1 = m.Symbol("f1", tm.FunctionType(T.INT, [T.INT]))
+    f2 = m.Symbol("f2", tm.FunctionType(T.INT, [T.INT, T.INT]))
+    body = m.And(B[0], m.LT(I[0], I[1]))
+    cs = [("And", m.And, B, 0), ("Or", m.Or, B, 0), ("Plus", m.Plus, I, 1), ("Times", m.Times, I, 1),
+          ("Min", m.Min, I, 1), ("Max", m.Max, I, 1), ("AllDifferent", m.AllDifferent, I, 0), ("ExactlyOne", m.ExactlyOne, B, 0),
+          ("AtMostOne", m.AtMostOne, B, 0), ("BVAnd", m.BVAnd, V, 1), ("BVOr", m.BVOr, V, 1), ("BVAdd", m.BVAdd, V, 1),
+          ("BVMul", m.BVMul, V, 1), ("BVConcat", m.BVConcat, V, 2), ("StrConcat", m.StrConcat, S, 2),
+          ("ForAll", lambda vs: m.ForAll(vs, body), B[:1] + I[:2], 0), ("Exists", lambda vs: m.Exists(vs, body), B[:1] + I[:2], 0),
+          ("Function", None, I, 1)]
+    return cs, {1: f1, 2: f2, 3: f}
+
+
+def container_body(env, ci, kind, n, twin):
+    """constructor ci applied to its first n items, passed as container kind `kind`: the very object the list call yields"""
+    cs, funs = container_cases(env)
+    cj = None
+    for j in range(len(cs)):
+        if ci == j:
+            cj = j
+    kj = None
+    for j in range(len(CONTAINER_KINDS)):
+        if kind == j:
+            kj = j
+    nj = None
+    for j in range(4):
+        if n == j:
+            nj = j
+    if cj is None or kj is None or nj is None:
+        return True
+    with NoTracing():
+        name, ctor, pool, minn = cs[cj]
+        if nj < minn:
+            return True
+        items = list(pool[:nj])
+        if name == "Function":
+            fn = funs[nj]
+            m = env.formula_manager
+            ctor = lambda xs: m.Function(fn, xs)
+        kname = CONTAINER_KINDS[kj]
+        if kname == "varargs" and name in ("ForAll", "Exists", "Function"):
+            return True
+        if name == "Function" and kname not in ("list", "tuple"):
+            return True        # documented parameter type is Sequence
+        ref = ctor(list(items))
+        if twin:
+            return False
+        if kname == "list":
+            arg = list(items)
+        elif kname == "tuple":
+            arg = tuple(items)
+        elif kname == "generator":
+            arg = (x for x in items)
+        elif kname == "iterator":
+            arg = iter(items)
+        elif kname == "filter":
+            arg = filter(lambda x: True, items)
+        elif kname == "dict-keys":
+            arg = dict((x, 1) for x in items).keys()
+        if kname == "varargs":
+            got = ctor(*items)
+        else:
+            got = ctor(arg)
+        ok = got is ref
+        if ok and name in ("ForAll", "Exists") and nj > 0:
+            ok = tuple(got.quantifier_vars()) == tuple(items)
+    return ok
 
 
 def pair_body(env, a, b, c, d, o, twin):
@@ -159,6 +245,7 @@ def jobs(tier):
            ("props.c04_xh", "h_hc", t * 2, {"kind": "real", "qbox": 2 if tier == "quick" else 3, "name": "hc/real"}),
            ("props.c04_xh", "h_hc", t * 2, {"kind": "string", "strlen": 2 if tier == "quick" else 3, "name": "hc/string"}),
            ("props.c04_xh", "h_hc", t * 3, {"kind": "bvtype", "name": "hc/bvtype"})]
+    out.append(("props.c04_xh", "h_hc", t * 2, {"kind": "container", "name": "hc/container"}))
     for w in ((1, 2, 4) if tier == "quick" else (1, 2, 3, 4, 5, 6)):
         out.append(("props.c04_xh", "h_hc", t * 2, {"kind": "bv", "w": w, "name": "hc/bv/w%d" % w}))
         out.append(("props.c04_xh", "h_hc", t * 2, {"kind": "pair", "w": w, "name": "hc/pair/w%d" % w}))
